@@ -76,14 +76,16 @@ AlongAxis(W, sz, box, k, cur, sc) ==
         hit == {x \in box[k][1]..box[k][2] : cum(x) >= cur}
         x0 == IF hit = {} THEN box[k][2] + 1 ELSE CHOOSE x \in hit : \A y \in hit : x <= y
     IN [Point(box) EXCEPT ![k] = x0]
-DescentN(W, sz, o, U, sc) ==
-    LET bs == Buckets(sz, o)
-        hit == {b \in 1..Len(bs) : sc * CumUpTo(W, sz, bs, b) >= U}
+\* bs = Buckets(sz, o), cum[b] = mass of the buckets 1..b (cum[0] = 0): handed over so that a caller evaluates them once
+DescentNc(W, sz, bs, cum, U, sc) ==
+    LET hit == {b \in 1..Len(bs) : sc * cum[b] >= U}
         b == IF hit = {} THEN Len(bs) ELSE CHOOSE x \in hit : \A y \in hit : x <= y
-        cur == U - sc * CumUpTo(W, sz, bs, b - 1)
+        cur == U - sc * cum[b - 1]
         free == FreeAxes(bs[b])
     IN IF Cardinality(free) = 1 THEN AlongAxis(W, sz, bs[b], CHOOSE k \in free : TRUE, cur, sc)
        ELSE Bisect(W, sz, bs[b], cur, 1, sc)
+CumTable(W, sz, bs) == [b \in 0..Len(bs) |-> CumUpTo(W, sz, bs, b)]
+DescentN(W, sz, o, U, sc) == DescentNc(W, sz, Buckets(sz, o), CumTable(W, sz, Buckets(sz, o)), U, sc)
 
 \* ---- design check ------------------------------------------------------------------------------------------------------
 CONSTANTS Shapes,     \* set of <<sizes, origins>>
